@@ -12,6 +12,7 @@ that both produce an answer.
 -/
 import ClvmProofs.Lemmas.Interp.Repr
 import ClvmProofs.Lemmas.Interp.MachineBase
+import ClvmProofs.Lemmas.Interp.LiftShape
 import ClvmModel.Interp.CryptoOps
 import ClvmProofs.Lemmas.TreeHash
 
@@ -48,16 +49,31 @@ theorem MR.liftE {α : Type} {R : α → α → Prop} {x x' : Except Err α} (h 
 
 /-! ### the simulation relation -/
 
+/-- the operation stack without its `RestoreAllocator` entries.  `gc_candidate` looks at the
+representation of the operator atom (`NodeVisitor::U32` only), so under ENABLE_GC the two runs may
+push such entries at different places; in the machine model a `RestoreAllocator` step changes
+nothing but the operation stack and the checkpoint count. -/
+def stripOps : List Operation → List Operation
+  | [] => []
+  | .RestoreAllocator :: ops => stripOps ops
+  | .Apply :: ops => .Apply :: stripOps ops
+  | .Cons :: ops => .Cons :: stripOps ops
+  | .ExitGuard :: ops => .ExitGuard :: stripOps ops
+  | .SwapEval :: ops => .SwapEval :: stripOps ops
+
+theorem stripOps_cons_congr (o : Operation) {l l' : List Operation} (h : stripOps l = stripOps l') :
+    stripOps (o :: l) = stripOps (o :: l') := by
+  cases o <;> simp only [stripOps, h]
+
 /-- the two states differ only in the representation tags of the (well-formed) values on the
-value and environment stacks -/
+value and environment stacks, and in the positions of pending `RestoreAllocator` operations -/
 structure StateEraseEq (s s' : MState) : Prop where
   val : ListReq s.valStack s'.valStack
   env : ListReq s.envStack s'.envStack
   valLen : s.valLen = s'.valLen
   envLen : s.envLen = s'.envLen
-  ops : s.opStack = s'.opStack
+  ops : stripOps s.opStack = stripOps s'.opStack
   guards : s.softforkStack = s'.softforkStack
-  allocs : s.allocatorStack = s'.allocatorStack
   ctr : s.ctr = s'.ctr
 
 /-- a step result: same cost, related states -/
@@ -72,7 +88,7 @@ theorem pop_rel {s s' : MState} (h : StateEraseEq s s') :
   cases h1 with
   | nil => exact .err rfl
   | cons hx ht =>
-    exact .ok ⟨hx, ⟨ht, h.env, by simp [h.valLen], h.envLen, h.ops, h.guards, h.allocs, h.ctr⟩⟩
+    exact .ok ⟨hx, ⟨ht, h.env, by simp [h.valLen], h.envLen, h.ops, h.guards, h.ctr⟩⟩
 
 theorem push_rel {s s' : MState} (h : StateEraseEq s s') {v v' : Val} (hv : Req v v') :
     MR StateEraseEq (s.push v) (s'.push v') := by
@@ -80,7 +96,7 @@ theorem push_rel {s s' : MState} (h : StateEraseEq s s') {v v' : Val} (hv : Req 
   rw [h.valLen]
   split
   · exact .err rfl
-  · exact .ok ⟨.cons hv h.val, h.env, by simp, h.envLen, h.ops, h.guards, h.allocs, h.ctr⟩
+  · exact .ok ⟨.cons hv h.val, h.env, by simp, h.envLen, h.ops, h.guards, h.ctr⟩
 
 theorem pushEnv_rel {s s' : MState} (h : StateEraseEq s s') {v v' : Val} (hv : Req v v') :
     MR StateEraseEq (s.pushEnv v) (s'.pushEnv v') := by
@@ -88,11 +104,11 @@ theorem pushEnv_rel {s s' : MState} (h : StateEraseEq s s') {v v' : Val} (hv : R
   rw [h.envLen]
   split
   · exact .err rfl
-  · exact .ok ⟨h.val, .cons hv h.env, h.valLen, by simp, h.ops, h.guards, h.allocs, h.ctr⟩
+  · exact .ok ⟨h.val, .cons hv h.env, h.valLen, by simp, h.ops, h.guards, h.ctr⟩
 
 theorem pushOp_rel {s s' : MState} (h : StateEraseEq s s') (o : Operation) :
     StateEraseEq (s.pushOp o) (s'.pushOp o) :=
-  ⟨h.val, h.env, h.valLen, h.envLen, by simp [MState.pushOp, h.ops], h.guards, h.allocs, h.ctr⟩
+  ⟨h.val, h.env, h.valLen, h.envLen, stripOps_cons_congr o h.ops, h.guards, h.ctr⟩
 
 theorem consOp_rel {s s' : MState} (h : StateEraseEq s s') : MR StepRel (consOp s) (consOp s') := by
   unfold consOp
@@ -108,7 +124,7 @@ theorem consOp_rel {s s' : MState} (h : StateEraseEq s s') : MR StepRel (consOp 
   | ok c' =>
     refine MR.bind (R := StateEraseEq) ?_ ?_
     · exact push_rel (s := { s2 with ctr := c' }) (s' := { s2' with ctr := c' })
-        ⟨hs2.val, hs2.env, hs2.valLen, hs2.envLen, hs2.ops, hs2.guards, hs2.allocs, rfl⟩ (hv1.pair hv2)
+        ⟨hs2.val, hs2.env, hs2.valLen, hs2.envLen, hs2.ops, hs2.guards, rfl⟩ (hv1.pair hv2)
     · intro a a' ha; exact .ok ⟨rfl, ha⟩
 
 /-! ### traversal -/
@@ -147,7 +163,6 @@ def OpCallRel : Option OpRes → Option OpRes → Prop
 
 /-- what the simulation needs from a dialect -/
 structure DialectRepr (d : Dialect) : Prop where
-  gc : ∀ o o', Req o o' → d.gcCandidate o = d.gcCandidate o'
   op : ∀ o o' args args' m ext c, Req o o' → Req args args' →
     OpCallRel (d.op o args m ext c) (d.op o' args' m ext c)
 
@@ -171,20 +186,17 @@ theorem evalOpAtom_rel {d : Dialect} (hd : DialectRepr d) {s s' : MState} (h : S
     {o o' l l' env env' : Val} (ho : Req o o') (hl : Req l l') (he : Req env env') :
     MR StepRel (evalOpAtom d s o l env) (evalOpAtom d s' o' l' env') := by
   unfold evalOpAtom
-  rw [smallNumber_req ho, hd.gc o o' ho]
+  rw [smallNumber_req ho]
   split
   · refine (push_rel h hl).bind ?_
     intro a a' ha; exact .ok ⟨rfl, ha⟩
   · have hs1 : StateEraseEq
-        (if d.gcCandidate o' = true then
+        (if d.gcCandidate o = true then
           ({ s with allocatorStack := s.allocatorStack + 1 }.pushOp .RestoreAllocator) else s)
         (if d.gcCandidate o' = true then
           ({ s' with allocatorStack := s'.allocatorStack + 1 }.pushOp .RestoreAllocator) else s') := by
-      split
-      · exact pushOp_rel (s := { s with allocatorStack := s.allocatorStack + 1 })
-          (s' := { s' with allocatorStack := s'.allocatorStack + 1 })
-          ⟨h.val, h.env, h.valLen, h.envLen, h.ops, h.guards, by simp [h.allocs], h.ctr⟩ _
-      · exact h
+      split <;> split <;>
+        exact ⟨h.val, h.env, h.valLen, h.envLen, h.ops, h.guards, h.ctr⟩
     refine (pushEnv_rel hs1 he).bind ?_
     intro a a' ha
     refine (push_rel (pushOp_rel ha .Apply) ho).bind ?_
@@ -375,7 +387,7 @@ theorem applyOpBody_rel (cfg : Cfg) {d : Dialect} (hd : DialectRepr d) {t t' : M
             split
             · exact .err rfl
             · refine (evalPair_rel cfg hd (pushOp_rel ?_ _) hprg henv).bind ?_
-              · exact ⟨hs3.val, hs3.env, hs3.valLen, hs3.envLen, hs3.ops, rfl, hs3.allocs, rfl⟩
+              · exact ⟨hs3.val, hs3.env, hs3.valLen, hs3.envLen, hs3.ops, rfl, rfl⟩
               · intro ⟨c, u⟩ ⟨c', u'⟩ ⟨hc, hu⟩
                 simp only at hc hu ⊢
                 subst hc
@@ -396,7 +408,7 @@ theorem applyOpBody_rel (cfg : Cfg) {d : Dialect} (hd : DialectRepr d) {t t' : M
         subst hk; subst hc
         simp only []
         refine MR.bind (R := StateEraseEq) (push_rel ?_ hv) ?_
-        · exact ⟨hs3.val, hs3.env, hs3.valLen, hs3.envLen, hs3.ops, rfl, hs3.allocs, rfl⟩
+        · exact ⟨hs3.val, hs3.env, hs3.valLen, hs3.envLen, hs3.ops, rfl, rfl⟩
         · intro a a' ha; exact .ok ⟨rfl, ha⟩
       | some (.error _), some (.ok _), hf => exact hf.elim
       | some (.ok _), some (.error _), hf => exact hf.elim
@@ -419,7 +431,7 @@ theorem applyOp_rel (cfg : Cfg) {d : Dialect} (hd : DialectRepr d) {s s' : MStat
     simp only []
     exact applyOpBody_rel cfg hd (t := { s2 with envStack := envs, envLen := s2.envLen - 1 })
       (t' := { s2' with envStack := envs', envLen := s2'.envLen - 1 })
-      ⟨hs2.val, henvs, hs2.valLen, by simp [hs2.envLen], hs2.ops, hs2.guards, hs2.allocs, hs2.ctr⟩ ho hol _ _
+      ⟨hs2.val, henvs, hs2.valLen, by simp [hs2.envLen], hs2.ops, hs2.guards, hs2.ctr⟩ ho hol _ _
 
 /-! ### `exit_guard`, the loop, `run_program` -/
 
@@ -441,96 +453,190 @@ theorem exitGuard_rel_repr {s s' : MState} (h : StateEraseEq s s') (currentCost 
       | cons _ ht =>
         simp only []
         refine MR.bind (R := StateEraseEq) (push_rel ?_ Req.nil) ?_
-        · exact ⟨ht, h.env, by simp [h.valLen], h.envLen, h.ops, rfl, h.allocs, by simp [h.ctr]⟩
+        · exact ⟨ht, h.env, by simp [h.valLen], h.envLen, h.ops, rfl, by simp [h.ctr]⟩
         · intro a a' ha; exact .ok ⟨rfl, ha⟩
 
-/-- **one step of the main loop preserves the simulation** -/
+/-- **one step of the main loop preserves the simulation** (all operations except
+`RestoreAllocator`, which the two runs need not take at the same time: `runLoop_rel`) -/
 theorem stepOp_rel (cfg : Cfg) {d : Dialect} (hd : DialectRepr d) {s s' : MState} (h : StateEraseEq s s')
-    (op : Operation) (cost em : Nat) :
+    (op : Operation) (hop : op ≠ .RestoreAllocator) (cost em : Nat) :
     MR StepRel (stepOp cfg d s op cost em) (stepOp cfg d s' op cost em) := by
   cases op with
   | Apply => exact applyOp_rel cfg hd h _ _
   | ExitGuard => exact exitGuard_rel_repr h _
   | Cons => exact consOp_rel h
   | SwapEval => exact swapEvalOp_rel cfg hd h
-  | RestoreAllocator =>
-    simp only [stepOp]
-    rw [h.allocs]
-    split
-    · exact .err rfl
-    · have hv := h.val
-      generalize s.valStack = vs at hv ⊢
-      generalize s'.valStack = vs' at hv ⊢
-      cases hv with
-      | nil => exact .err rfl
-      | cons hx ht =>
-        simp only [List.isEmpty_cons, Bool.false_eq_true, if_false]
-        exact .ok ⟨rfl, ⟨.cons hx ht, h.env, h.valLen, h.envLen, h.ops, h.guards, by simp, h.ctr⟩⟩
+  | RestoreAllocator => exact absurd rfl hop
 
 /-- outcomes of the whole loop: `none` (out of fuel) on either side is related to anything -/
 def LoopRel : Option (M (Nat × MState)) → Option (M (Nat × MState)) → Prop
   | some r, some r' => MR StepRel r r'
   | _, _ => True
 
-theorem runLoop_rel (cfg : Cfg) {d : Dialect} (hd : DialectRepr d) (maxCost fuel : Nat) :
-    ∀ {s s' : MState}, StateEraseEq s s' → ∀ cost : Nat,
-      LoopRel (runLoop cfg d maxCost fuel s cost) (runLoop cfg d maxCost fuel s' cost) := by
-  induction fuel with
-  | zero => intro s s' _ cost; simp [runLoop_zero, LoopRel]
-  | succ n ih =>
-    intro s s' h cost
-    rw [runLoop_succ, runLoop_succ]
+theorem LoopRel.none_left (y : Option (M (Nat × MState))) : LoopRel none y := by
+  cases y <;> trivial
+
+theorem LoopRel.none_right (x : Option (M (Nat × MState))) : LoopRel x none := by
+  cases x <;> trivial
+
+theorem runLoop_over (cfg : Cfg) (d : Dialect) (mc n : Nat) (s : MState) (cost : Nat)
+    (hc : cost > effMax mc s) : runLoop cfg d mc (n + 1) s cost = some (.error (.err .CostExceeded)) := by
+  rw [runLoop_succ]; unfold loopBody; simp only [hc, if_true]
+
+theorem runLoop_nil (cfg : Cfg) (d : Dialect) (mc n : Nat) (s : MState) (cost : Nat)
+    (hc : ¬ cost > effMax mc s) (hop : s.opStack = []) :
+    runLoop cfg d mc (n + 1) s cost = some (.ok (cost, s)) := by
+  rw [runLoop_succ]; unfold loopBody; simp only [hc, if_false, hop]
+
+theorem runLoop_cons (cfg : Cfg) (d : Dialect) (mc n : Nat) (s : MState) (cost : Nat)
+    (hc : ¬ cost > effMax mc s) {op : Operation} {ops : List Operation} (hop : s.opStack = op :: ops) :
+    runLoop cfg d mc (n + 1) s cost =
+      match stepOp cfg d { s with opStack := ops } op cost (effMax mc s) with
+      | .error e => some (.error e)
+      | .ok (c, s1) => runLoop cfg d mc n s1 (cost + c) := by
+  rw [runLoop_succ]; unfold loopBody; simp only [hc, if_false, hop]; rfl
+
+/-- a pending `RestoreAllocator` of a shaped state just disappears: no cost, no error -/
+theorem runLoop_restore (cfg : Cfg) (d : Dialect) (mc n : Nat) {s : MState} (hs : s.Shaped) (cost : Nat)
+    (hc : ¬ cost > effMax mc s) {ops : List Operation} (hop : s.opStack = .RestoreAllocator :: ops) :
+    ∃ s1, runLoop cfg d mc (n + 1) s cost = runLoop cfg d mc n s1 cost ∧ s1.Shaped ∧
+      s1.opStack = ops ∧ s1.valStack = s.valStack ∧ s1.envStack = s.envStack ∧ s1.valLen = s.valLen ∧
+      s1.envLen = s.envLen ∧ s1.softforkStack = s.softforkStack ∧ s1.ctr = s.ctr := by
+  have hsh : Shape (.RestoreAllocator :: ops) (flagsOf s.valStack) s.envStack.length s.softforkStack.length
+      s.allocatorStack := by simpa [MState.Shaped, hop] using hs
+  obtain ⟨hne, hna, hrest⟩ := hsh
+  refine ⟨{ s with opStack := ops, allocatorStack := s.allocatorStack - 1 }, ?_, ?_, rfl, rfl, rfl, rfl, rfl,
+    rfl, rfl⟩
+  · rw [runLoop_cons cfg d mc n s cost hc hop]
+    have h0 : (s.allocatorStack == 0) = false := by
+      cases hsa : s.allocatorStack with
+      | zero => omega
+      | succ k => rfl
+    have hv : s.valStack.isEmpty = false := by
+      cases hsv : s.valStack with
+      | nil => rw [hsv] at hne; exact absurd rfl hne
+      | cons _ _ => rfl
+    simp only [stepOp, h0, hv, Bool.false_eq_true, if_false, Nat.add_zero]
+  · simpa [MState.Shaped] using hrest
+
+theorem stripOps_head_cases {l l' : List Operation} (h : stripOps l = stripOps l') :
+    (∃ ops, l = .RestoreAllocator :: ops) ∨ (∃ ops', l' = .RestoreAllocator :: ops') ∨ (l = [] ∧ l' = []) ∨
+    (∃ op ops ops', op ≠ .RestoreAllocator ∧ l = op :: ops ∧ l' = op :: ops' ∧ stripOps ops = stripOps ops') := by
+  cases l with
+  | nil =>
+    cases l' with
+    | nil => exact .inr (.inr (.inl ⟨rfl, rfl⟩))
+    | cons op' ops' =>
+      cases op' <;> first
+        | exact .inr (.inl ⟨_, rfl⟩)
+        | (simp [stripOps] at h)
+  | cons op ops =>
+    cases op <;> first
+      | exact .inl ⟨_, rfl⟩
+      | (cases l' with
+          | nil => simp [stripOps] at h
+          | cons op' ops' =>
+            cases op' <;> first
+              | exact .inr (.inl ⟨_, rfl⟩)
+              | (simp only [stripOps, List.cons.injEq, true_and] at h
+                 exact .inr (.inr (.inr ⟨_, _, _, by simp, rfl, rfl, h⟩)))
+              | (simp [stripOps] at h))
+
+/-- **the loop preserves the simulation**, with stuttering on `RestoreAllocator` steps (the two runs
+may need different amounts of fuel) -/
+theorem runLoop_rel (cfg : Cfg) {d : Dialect} (hd : DialectRepr d) (maxCost : Nat) :
+    ∀ (k n n' : Nat), n + n' ≤ k → ∀ {s s' : MState}, s.Shaped → s'.Shaped → StateEraseEq s s' → ∀ cost : Nat,
+      LoopRel (runLoop cfg d maxCost n s cost) (runLoop cfg d maxCost n' s' cost) := by
+  intro k
+  induction k with
+  | zero =>
+    intro n n' hk s s' _ _ _ cost
+    have : n = 0 := by omega
+    subst this
+    exact LoopRel.none_left _
+  | succ k ih =>
+    intro n n' hk s s' hsh hsh' h cost
+    cases n with
+    | zero => exact LoopRel.none_left _
+    | succ m =>
+    cases n' with
+    | zero => exact LoopRel.none_right _
+    | succ m' =>
     have hem : effMax maxCost s = effMax maxCost s' := by simp [effMax, h.guards]
-    rw [hem]
-    unfold loopBody
-    split
-    · exact .err rfl
-    · rw [h.ops]
-      cases hops : s'.opStack with
-      | nil => exact .ok ⟨rfl, h⟩
-      | cons op ops =>
-        simp only []
-        have hst := stepOp_rel cfg hd (s := { s with opStack := ops }) (s' := { s' with opStack := ops })
-          ⟨h.val, h.env, h.valLen, h.envLen, rfl, h.guards, h.allocs, h.ctr⟩ op cost (effMax maxCost s')
-        revert hst
-        generalize stepOp cfg d { s with opStack := ops } op cost (effMax maxCost s') = r
-        generalize stepOp cfg d { s' with opStack := ops } op cost (effMax maxCost s') = r'
-        intro hst
-        cases hst with
-        | ok hr =>
-          rename_i a a'
-          obtain ⟨c, t⟩ := a; obtain ⟨c', t'⟩ := a'
-          obtain ⟨hc, ht⟩ := hr
-          simp only at hc ht ⊢
-          subst hc
-          exact ih ht _
-        | err hk => exact .err hk
-        | unsupL =>
-          cases r' with
-          | error e => exact .unsupL
-          | ok a =>
-            simp only []
-            cases runLoop cfg d maxCost n a.2 (cost + a.1) with
-            | none => trivial
-            | some x => exact .unsupL
-        | unsupR =>
-          cases r with
-          | error e => exact .unsupR
-          | ok a =>
-            simp only []
-            cases runLoop cfg d maxCost n a.2 (cost + a.1) with
-            | none => trivial
-            | some x => exact .unsupR
+    by_cases hc : cost > effMax maxCost s
+    · rw [runLoop_over cfg d maxCost m s cost hc, runLoop_over cfg d maxCost m' s' cost (hem ▸ hc)]
+      exact .err rfl
+    have hc' : ¬ cost > effMax maxCost s' := hem ▸ hc
+    rcases stripOps_head_cases h.ops with ⟨ops, hop⟩ | ⟨ops', hop'⟩ | ⟨hop, hop'⟩ |
+      ⟨op, ops, ops', hne, hop, hop', htl⟩
+    · -- the left run drops a `RestoreAllocator`
+      obtain ⟨s1, he, hs1, ho1, hv1, he1, hvl1, hel1, hg1, hc1⟩ :=
+        runLoop_restore cfg d maxCost m hsh cost hc hop
+      rw [he]
+      refine ih m (m' + 1) (by omega) hs1 hsh' ?_ cost
+      exact ⟨hv1 ▸ h.val, he1 ▸ h.env, hvl1 ▸ h.valLen, hel1 ▸ h.envLen,
+        by rw [ho1, ← h.ops, hop]; rfl, hg1 ▸ h.guards, hc1 ▸ h.ctr⟩
+    · -- the right run drops a `RestoreAllocator`
+      obtain ⟨s1, he, hs1, ho1, hv1, he1, hvl1, hel1, hg1, hc1⟩ :=
+        runLoop_restore cfg d maxCost m' hsh' cost hc' hop'
+      rw [he]
+      refine ih (m + 1) m' (by omega) hsh hs1 ?_ cost
+      exact ⟨hv1 ▸ h.val, he1 ▸ h.env, hvl1 ▸ h.valLen, hel1 ▸ h.envLen,
+        by rw [ho1, h.ops, hop']; rfl, hg1 ▸ h.guards, hc1 ▸ h.ctr⟩
+    · rw [runLoop_nil cfg d maxCost m s cost hc hop, runLoop_nil cfg d maxCost m' s' cost hc' hop']
+      exact .ok ⟨rfl, h⟩
+    · rw [runLoop_cons cfg d maxCost m s cost hc hop, runLoop_cons cfg d maxCost m' s' cost hc' hop', hem]
+      have hst := stepOp_rel cfg hd (s := { s with opStack := ops }) (s' := { s' with opStack := ops' })
+        ⟨h.val, h.env, h.valLen, h.envLen, htl, h.guards, h.ctr⟩ op hne cost (effMax maxCost s')
+      have hshape : ∀ (c : Nat) (t : MState),
+          stepOp cfg d { s with opStack := ops } op cost (effMax maxCost s') = .ok (c, t) → t.Shaped := by
+        intro c t ht
+        refine stepOp_shape (s := { s with opStack := ops }) rfl ?_ ht
+        simpa [MState.Shaped, hop] using hsh
+      have hshape' : ∀ (c : Nat) (t : MState),
+          stepOp cfg d { s' with opStack := ops' } op cost (effMax maxCost s') = .ok (c, t) → t.Shaped := by
+        intro c t ht
+        refine stepOp_shape (s := { s' with opStack := ops' }) rfl ?_ ht
+        simpa [MState.Shaped, hop'] using hsh'
+      revert hst hshape hshape'
+      generalize stepOp cfg d { s with opStack := ops } op cost (effMax maxCost s') = r
+      generalize stepOp cfg d { s' with opStack := ops' } op cost (effMax maxCost s') = r'
+      intro hst hshape hshape'
+      cases hst with
+      | ok hr =>
+        rename_i a a'
+        obtain ⟨c, t⟩ := a; obtain ⟨c', t'⟩ := a'
+        obtain ⟨hcc, ht⟩ := hr
+        simp only at hcc ht ⊢
+        subst hcc
+        exact ih m m' (by omega) (hshape _ _ rfl) (hshape' _ _ rfl) ht _
+      | err hk => exact .err hk
+      | unsupL =>
+        cases r' with
+        | error e => exact .unsupL
+        | ok a =>
+          simp only []
+          cases runLoop cfg d maxCost m' a.2 (cost + a.1) with
+          | none => trivial
+          | some x => exact .unsupL
+      | unsupR =>
+        cases r with
+        | error e => exact .unsupR
+        | ok a =>
+          simp only []
+          cases runLoop cfg d maxCost m a.2 (cost + a.1) with
+          | none => trivial
+          | some x => exact .unsupR
 
 /-- **C03, machine level (`eval_retag`)**: two runs of `run_program` on erase-equal well-formed
-programs and environments, from the same counters and with the same fuel, that both produce an
-answer produce the same answer up to representation tags — same cost, erase-equal values, equal
+programs and environments from the same counters that both produce an answer (each with its own
+fuel) produce the same answer up to representation tags — same cost, erase-equal values, equal
 counters (heap size included), or the same kind of error. -/
-theorem eval_retag (cfg : Cfg) {d : Dialect} (hd : DialectRepr d) (fuel : Nat) (c0 : Ctr)
+theorem eval_retag (cfg : Cfg) {d : Dialect} (hd : DialectRepr d) (fuel fuel' : Nat) (c0 : Ctr)
     {program program' env env' : Val} (hp : Req program program') (he : Req env env') (maxCost : Nat)
     {r r' : OpRes}
     (hr : runProgram cfg d fuel c0 program env maxCost = some r)
-    (hr' : runProgram cfg d fuel c0 program' env' maxCost = some r') :
+    (hr' : runProgram cfg d fuel' c0 program' env' maxCost = some r') :
     ResEraseEq true r r' := by
   unfold runProgram at hr hr'
   simp only [] at hr hr'
@@ -542,12 +648,16 @@ theorem eval_retag (cfg : Cfg) {d : Dialect} (hd : DialectRepr d) (fuel : Nat) (
     rw [hg] at hr hr'
     simp only [] at hr hr'
     have h0 : StateEraseEq ({ ctr := c } : MState) ({ ctr := c } : MState) :=
-      ⟨.nil, .nil, rfl, rfl, rfl, rfl, rfl, rfl⟩
+      ⟨.nil, .nil, rfl, rfl, rfl, rfl, rfl⟩
     have hev := evalPair_rel cfg hd h0 hp he
-    revert hev hr hr'
+    have hi : ∀ k s, evalPair cfg d { ctr := c } program env = .ok (k, s) → s.Shaped :=
+      fun k s h => initial_shaped h
+    have hi' : ∀ k s, evalPair cfg d { ctr := c } program' env' = .ok (k, s) → s.Shaped :=
+      fun k s h => initial_shaped h
+    revert hev hr hr' hi hi'
     generalize evalPair cfg d { ctr := c } program env = x
     generalize evalPair cfg d { ctr := c } program' env' = x'
-    intro hr hr' hev
+    intro hr hr' hev hi hi'
     cases hev with
     | err hk => cases hr; cases hr'; exact hk
     | unsupL => first | cases hr | cases hr'
@@ -558,10 +668,11 @@ theorem eval_retag (cfg : Cfg) {d : Dialect} (hd : DialectRepr d) (fuel : Nat) (
       obtain ⟨hk, hs⟩ := hst
       simp only at hk hs hr hr'
       subst hk
-      have hl := runLoop_rel cfg hd (if maxCost == 0 then U64_MAX else maxCost) fuel hs k
+      have hl := runLoop_rel cfg hd (if maxCost == 0 then U64_MAX else maxCost) (fuel + fuel') fuel fuel'
+        (Nat.le_refl _) (hi _ _ rfl) (hi' _ _ rfl) hs k
       revert hl hr hr'
       generalize runLoop cfg d _ fuel s k = y
-      generalize runLoop cfg d _ fuel s' k = y'
+      generalize runLoop cfg d _ fuel' s' k = y'
       intro hr hr' hl
       match y, y', hl with
       | none, _, _ => first | cases hr | cases hr'
@@ -675,21 +786,15 @@ theorem unknownOperator_rel (hunk : ∀ op, OpWf (opUnknown op)) (ob : Bytes) (f
 
 theorem op4_not_substr : ∀ e ∈ Gen.chiaOp4Table, e.2 ≠ "op_substr" := by decide
 
-/-- **the simulation hypothesis holds for `ChiaDialect`** (without `ENABLE_GC`) once the calls of
+/-- **the simulation hypothesis holds for `ChiaDialect`** (every flag set, `ENABLE_GC` included) once the calls of
 `op_substr` inside the defect region are guarded, given that operator results are well-formed
 (`OpWf`) and that the extra (cryptographic) operators are representation independent -/
 theorem chiaDialect_repr (cfg : Cfg) (extra : String → Option OpFn) (flags0 : Flags)
     (hcore : ∀ name f, coreOpByName cfg name = some f → OpWf f)
     (hunk : ∀ op, OpWf (opUnknown op))
-    (hextra : ∀ name f, extra name = some f → OpRepr true f ∧ OpWf f)
-    (hgc : hasFlag (chiaDialect cfg extra flags0).flags Gen.FLAG_ENABLE_GC = false) :
+    (hextra : ∀ name f, extra name = some f → OpRepr true f ∧ OpWf f) :
     DialectRepr ((chiaDialect cfg extra flags0).guard substrGuard) := by
   constructor
-  · intro o o' _
-    show (chiaDialect cfg extra flags0).gcCandidate o = (chiaDialect cfg extra flags0).gcCandidate o'
-    have hgc' := hgc
-    simp only [chiaDialect] at hgc' ⊢
-    simp only [hgc', Bool.not_false, if_true]
   · intro o o' args args' m ext c ho ha
     show OpCallRel (if substrGuard o args then none else (chiaDialect cfg extra flags0).op o args m ext c)
       (if substrGuard o' args' then none else (chiaDialect cfg extra flags0).op o' args' m ext c)
@@ -901,44 +1006,43 @@ theorem runProgram_guard (cfg : Cfg) (d : Dialect) (G : Val → Val → Bool) (f
         rw [hl] at h
         exact h
 
-/-- **C03 for `ChiaDialect`, whole runs** (`eval_retag` instantiated; `ENABLE_GC` off).
-If neither run applies `op_substr` to an inline source atom with a non-canonical result (the guarded
-runs both answer), then the two runs of the real dialect give those answers and they agree up to
-representation tags: same cost, erase-equal values, equal atom/pair counts *and* heap size, or the
-same kind of error.  `OpWf` of the operators is a hypothesis (`coreOps_wf`, `opUnknown_wf` in
-`Clean.lean`). -/
+/-- **C03 for `ChiaDialect`, whole runs** (`eval_retag` instantiated; every flag set, `ENABLE_GC`
+included).  If neither run applies `op_substr` to an inline source atom with a non-canonical result
+(the guarded runs both answer), then the two runs of the real dialect give those answers and they
+agree up to representation tags: same cost, erase-equal values, equal atom/pair counts *and* heap
+size, or the same kind of error.  The two runs may need different amounts of fuel (under ENABLE_GC
+`gc_candidate` accepts only an *inline* operator atom, so one run can have more `RestoreAllocator`
+steps than the other).  Operator hypotheses: `OpWf`, and the operator-level shape for `extra`. -/
 theorem eval_retag_chia_partial (cfg : Cfg) (extra : String → Option OpFn) (flags0 : Flags)
     (hcore : ∀ name f, coreOpByName cfg name = some f → OpWf f)
     (hunk : ∀ op, OpWf (opUnknown op))
     (hextra : ∀ name f, extra name = some f → OpRepr true f ∧ OpWf f)
-    (hgc : hasFlag (chiaDialect cfg extra flags0).flags Gen.FLAG_ENABLE_GC = false)
-    (fuel : Nat) (c0 : Ctr) (program program' env env' : Val)
+    (fuel fuel' : Nat) (c0 : Ctr) (program program' env env' : Val)
     (hpw : program.wf = true) (hpw' : program'.wf = true) (hpe : program.erase = program'.erase)
     (hew : env.wf = true) (hew' : env'.wf = true) (hee : env.erase = env'.erase)
     (maxCost : Nat) (r r' : OpRes)
     (hr : runProgram cfg ((chiaDialect cfg extra flags0).guard substrGuard) fuel c0 program env maxCost = some r)
-    (hr' : runProgram cfg ((chiaDialect cfg extra flags0).guard substrGuard) fuel c0 program' env' maxCost = some r') :
+    (hr' : runProgram cfg ((chiaDialect cfg extra flags0).guard substrGuard) fuel' c0 program' env' maxCost = some r') :
     runProgram cfg (chiaDialect cfg extra flags0) fuel c0 program env maxCost = some r ∧
-    runProgram cfg (chiaDialect cfg extra flags0) fuel c0 program' env' maxCost = some r' ∧
+    runProgram cfg (chiaDialect cfg extra flags0) fuel' c0 program' env' maxCost = some r' ∧
     ResEraseEq true r r' :=
   ⟨runProgram_guard _ _ _ _ _ _ _ _ _ hr, runProgram_guard _ _ _ _ _ _ _ _ _ hr',
-    eval_retag cfg (chiaDialect_repr cfg extra flags0 hcore hunk hextra hgc) fuel c0
+    eval_retag cfg (chiaDialect_repr cfg extra flags0 hcore hunk hextra) fuel fuel' c0
       ⟨hpw, hpw', hpe⟩ ⟨hew, hew', hee⟩ maxCost hr hr'⟩
 
-/-- the full machine-level statement: no guard, any flags, heap size not compared.  Not proved:
-(1) inside the defect region the heap sizes differ (`opSubstr_repr_witness`), and a later
-`OutOfMemory` check can then separate the two runs, so the statement needs "no allocator limit is
-hit" and a per-operator heap-shift lemma; (2) with `ENABLE_GC` a heap operator atom is not a
-`gc_candidate`, so the operation stacks differ by `RestoreAllocator` entries (stuttering). -/
+/-- the full machine-level statement: no guard, heap size not compared.  Not proved: inside the
+defect region the heap sizes differ (`opSubstr_repr_witness`), and a later `OutOfMemory` check can
+then separate the two runs, so the statement needs "no allocator limit is hit" and a per-operator
+heap-shift lemma. -/
 def EvalRetagStatement : Prop :=
   ∀ (cfg : Cfg) (extra : String → Option OpFn) (flags0 : Flags),
     (∀ name f, extra name = some f → OpRepr true f ∧ OpWf f) →
-    ∀ (fuel : Nat) (c0 : Ctr) (program program' env env' : Val),
+    ∀ (fuel fuel' : Nat) (c0 : Ctr) (program program' env env' : Val),
       program.wf = true → program'.wf = true → program.erase = program'.erase →
       env.wf = true → env'.wf = true → env.erase = env'.erase →
       ∀ (maxCost : Nat) (r r' : OpRes),
         runProgram cfg (chiaDialect cfg extra flags0) fuel c0 program env maxCost = some r →
-        runProgram cfg (chiaDialect cfg extra flags0) fuel c0 program' env' maxCost = some r' →
+        runProgram cfg (chiaDialect cfg extra flags0) fuel' c0 program' env' maxCost = some r' →
         (∀ e, r ≠ .error e ∨ e ≠ .OutOfMemory) → (∀ e, r' ≠ .error e ∨ e ≠ .OutOfMemory) →
         ResEraseEq false r r'
 
